@@ -160,6 +160,23 @@ def r2_single_writer(ctx):
              'persist_if_changed::{persist_if_changed, copy_if_changed} (plus create_dir_all for directories); in persist_if_changed the open '
              'for writing is reachable only on the has-changed branch, so an unchanged file keeps its mtime.')
     n = 0
+    # the writers and the private helpers they were split into (functions of the crate all of whose callers are in the family)
+    writers = {PIC + 'persist_if_changed', PIC + 'copy_if_changed'}
+    callers = {}
+    for b in ctx.fb.bodies('persist_if_changed'):
+        if not b.is_promoted:
+            for bb, t in b.calls():
+                c = callee(t) or ''
+                if c.startswith('persist_if_changed::') and c != b.nroot:
+                    callers.setdefault(c, set()).add(b.nroot)
+    fam = set(writers)
+    changed = True
+    while changed:
+        changed = False
+        for h, cs in callers.items():
+            if h not in fam and cs and cs <= fam:
+                fam.add(h)
+                changed = True
     for crate, ctype in (('pavexc', 'Rlib'), ('pavexc', 'Executable'), ('persist_if_changed', 'Rlib')):
         if (crate, ctype) not in ctx.fb.available():
             ctx.need('C10.R2', 'facts for %s/%s' % (crate, ctype), None)
@@ -174,26 +191,54 @@ def r2_single_writer(ctx):
                 if c.startswith('std::io::Write::') and not any(('fs_err::file::File' in a or 'std::fs::File' in a) for a in t['aty'][:1]):
                     continue
                 n += 1
-                ok = b.nroot in (PIC + 'persist_if_changed', PIC + 'copy_if_changed') or c.endswith('create_dir_all')
+                ok = b.nroot in fam or c.endswith('create_dir_all')
                 # the CLI has other sub-commands; only `generate` matters here, but no other writer exists today
-                ctx.ob('C10.R2', 'fs-mutation|%s|%s' % (b.nroot.replace(PX, ''), c.split('::')[-1]), ok, b.loc(bb, t), '%s in %s' % (c, b.nroot))
+                ctx.ob('C10.R2', 'fs-mutation|%s|%s' % (b.nroot.replace(PX, ''), c.split('::')[-1]), ok, b.loc(bb, t),
+                       '%s in %s%s' % (c, b.nroot, '' if b.nroot in writers or not ok else ' (private helper of the writers)'))
     ctx.floor('C10.R2', 'file-system mutation sites (positive control)', n, 4)
     p = ctx.need('C10.R2', 'persist_if_changed', ctx.fb.body('persist_if_changed', PIC + 'persist_if_changed'))
     if p is not None:
-        chk = [bb for bb, t in p.calls() if callee(t) in (PIC + 'has_changed_file2buffer', PIC + 'has_changed_file2file')]
-        opens = [bb for bb, t in p.calls() if FS_MUT.match(callee(t) or '')]
-        good = False
-        if chk and opens:
-            d = forward_derived(p, {p.term(chk[0])['dest']['l']}, through_calls=True)
-            for sb in p.live_blocks():
-                w = p.term(sb)
-                if w and w['k'] == 'switch' and 'enum' not in w and op_place(w['d']) and op_place(w['d'])['l'] in d:
-                    zero = [tg for v, tg in w['ts'] if v == '0']
-                    # every write is unreachable from the "unchanged" edge
-                    unchanged_is_zero = True
-                    good = all(o not in p.reachable(zero, avoid=[w['else']]) for o in opens) or all(o not in p.reachable(w['else'], avoid=zero) for o in opens)
-        ctx.ob('C10.R2', 'write-only-if-changed', good and all(p.dominates(chk[0], o) for o in opens), p.loc(),
-               'has_changed_file2buffer dominates the open-for-write, which sits on one branch of its result only')
+        # P11 case evaluation: the writer is interpreted for every outcome of the comparison (Ok(false) / Ok(true) / Err); a file-system
+        # mutation (in the function or in a helper of its family) is reached iff the outcome is not Ok(false)
+        from ..absint_std import StdSem, TagInterp
+        CMP = (PIC + 'has_changed_file2buffer', PIC + 'has_changed_file2file')
+
+        class Sem(StdSem):
+            crate = 'persist_if_changed'
+
+            def __init__(self, fb, tag, pay):
+                super().__init__(fb)
+                self.tag, self.payv, self.cmp, self.wrote = tag, pay, 0, False
+
+            def domain_call(self, interp, path, body, bb, term, short):
+                d = term.get('dest')
+                dk = (body.id, d['l']) if d is not None and not d.get('p') else None
+                if short in CMP and dk is not None:
+                    self.cmp += 1
+                    path.alias.pop(dk, None)
+                    path.memo.pop(dk, None)
+                    path.tags[dk] = self.tag
+                    path.pay.pop(dk, None)
+                    if self.payv is not None:
+                        path.pay[dk] = self.payv
+                    return [('next', path)]
+                if FS_MUT.match(short):
+                    self.wrote = True
+                return None
+
+            def descend_into(self, short):
+                return short in fam and short not in CMP
+
+        got = {}
+        ncmp = 0
+        for name, tag, pay in (('Ok(false)', 'res:Ok', False), ('Ok(true)', 'res:Ok', True), ('Err', 'res:Err', None)):
+            sem = Sem(ctx.fb, tag, pay)
+            TagInterp(sem).run(p, {})
+            got[name] = sem.wrote
+            ncmp += sem.cmp
+        ctx.ob('C10.R2', 'write-only-if-changed', ncmp > 0 and got == {'Ok(false)': False, 'Ok(true)': True, 'Err': True}, p.loc(),
+               'persist_if_changed interpreted for each outcome of has_changed_file2buffer: a file-system mutation is reached under %s '
+               '(required: never when the content is unchanged, always when it differs or cannot be compared)' % got)
 
 
 def r3_check_mode(ctx):
